@@ -384,3 +384,28 @@ Proof.
   split; [exact E|]. unfold stored_then_buffered in H. rewrite E in H. cbn [concat window_new w_file w_elems file_created] in H.
   unfold written_bytes at 2 in H. cbn [f_written rev concat app] in H. rewrite app_nil_r in H. exact H.
 Qed.
+
+(** * The sender's slide: [remove k] then [fill] (C18) *)
+
+(** Acknowledging [k] pieces and refilling keeps the unacknowledged pieces at the front, in order,
+    and appends the next bytes of the file behind them; the buffer stays within its size. *)
+Theorem remove_then_fill_slides : forall w k, WInv w -> f_mode (w_file w) = FRead -> k <= lenN (w_elems w) ->
+  exists cs full w', wrun w [OpRemove k; OpFill] = (w', [ObsUnit; ObsFill full]) /\
+    w_elems w' = dropN k (w_elems w) ++ cs /\
+    concat cs ++ f_rest (w_file w') = f_rest (w_file w) /\
+    lenN (w_elems w') <= w_size w /\
+    (full = true -> lenN (w_elems w') = w_size w) /\
+    (full = false -> f_rest (w_file w') = []).
+Proof.
+  intros w k Hw Hm Hk. cbn [wrun wstep].
+  rewrite (proj1 (remove_exact w k Hw) Hk).
+  set (w1 := mk_window (dropN k (w_elems w)) (w_size w) (w_chunk w) (w_file w)).
+  assert (Hw1 : WInv w1).
+  { destruct Hw as [H1 H2]. split; cbn [w1 w_elems w_size]; [rewrite lenN_dropN; lia|exact H2]. }
+  assert (Hm1 : f_mode (w_file w1) <> FWrite) by (cbn [w1 w_file]; congruence).
+  destruct (fill_spec w1 Hw1 Hm1) as (cs & full & w' & F1 & A & B & _ & _ & _ & _ & L & Ft & Ff).
+  rewrite F1. exists cs, full, w'. split; [reflexivity|]. cbn [w1 w_elems w_file w_size] in A, B, L, Ft.
+  split; [exact A|]. split; [exact B|]. split; [exact L|]. split.
+  - intros E. apply Ft. exact E.
+  - intros E. destruct (Ff E) as (i & l & _ & _ & _ & R). exact R.
+Qed.
